@@ -145,4 +145,9 @@ var Templates = []string{
 	"case x in esac",
 	"f() { a; } >f 2>&1",
 	"while a; do b; done <f | c",
+	"a ${#*} ${#@} ${#-} ${*:-x} ${@:+y} \"${#*}\"",
+	"case x in a) b; ;; c) d; ;; esac",
+	"case x in a) b & ;; c) d;; esac",
+	"if a; b; then c; d; fi",
+	"while a; b; do c; done",
 }
